@@ -61,19 +61,28 @@ def build_one(pd, **kw):
     if pd["cfg"]:
         p.add_argument("--cfg", action=ActionConfigFile)
     for name, kind in pd["opts"]:
+        if "." in name:
+            continue   # fields of the group g, added below
         ty = int if kind == "int" else str
         if name in pd["req"]:
             p.add_argument("--" + name, type=ty, required=True)
         else:
             p.add_argument("--" + name, type=ty, default=INT_DEFAULT if kind == "int" else STR_DEFAULT)
+    base_cls = [co for co in pd["cls"] if len(co) < 3 or co[2] == "Base"]
     if pd.get("sig"):
         # class / Callable / dataclass options come from a signature: non-empty action.sub_add_kwargs
-        names = [n for n, _ in pd["cls"]]
+        names = [co[0] for co in base_cls]
         tag = ("m" if "model" in names else "") + ("c" if "cb" in names else "") + ("d" if pd.get("dc") else "")
         p.add_class_arguments(c09_classes.HOLDERS[tag])
     else:
-        for name, is_callable in pd["cls"]:
+        for name, is_callable in [co[:2] for co in base_cls]:
             p.add_argument("--" + name, type=(Callable[[int], Base] if is_callable else Base), default=None)
+    if pd.get("lk"):
+        # a dataclass-typed argument (group g), a class option whose subclasses annotate o differently, and a
+        # parse-time link without compute_fn from the group key into the class' init_args
+        p.add_argument("--g", type=c09_classes.Data)
+        p.add_argument("--lm", type=c09_classes.LBase, default=None)
+        p.link_arguments("g", "lm.init_args.o")
     for src, tgt in pd.get("links", []):
         p.link_arguments(src, tgt)
     return p
@@ -104,7 +113,7 @@ def lit(v):
 
 
 def nested(items, decl):
-    cls_names = {n for n, _ in decl["root"]["cls"]}
+    cls_names = {co[0] for co in decl["root"]["cls"]}
     d = {}
     for k, v in items:
         if k == "d" and decl["root"].get("dc"):
